@@ -259,7 +259,7 @@ def run_model(cases, shards=NPROC, timeout=1800):
     cmd = ["bash", "-c", "ulimit -s unlimited 2>/dev/null; exec '%s'" % MODELRUN]
     outs = _run_lines(cmd, lines, shards, timeout)
     if os.environ.get("VERIF_TIER") == "thorough" and len(XCHECK) < 40:
-        small = [(a, b) for a, b in zip(lines, outs) if len(a) < 400 and len(b) < 400]
+        small = [(a, b) for a, b in zip(lines, outs) if len(a) < 4000 and len(b) < 2000]
         step = max(1, len(small) // 8)
         XCHECK.extend(small[::step][:8])
     return [parse_result(l) for l in outs]
